@@ -350,8 +350,8 @@ def aligned_parameter_vec(ctx, body, loops, P, need_order=True, _guard=None):
     aggs = []
     for c in sites:
         r = root_of(body, c.args[1])[0]
-        a = agg_def(body, r, 'v1::Parameter')
-        if a is None or a[0] not in L.blocks: return False, 'the value pushed into %s is not a Parameter built in the same iteration' % Ps, L, []
+        a = construction_of(ctx, body, r, 'v1::Parameter')
+        if a is None or a.bb not in L.blocks: return False, 'the value pushed into %s is not a Parameter built in the same iteration' % Ps, L, []
         aggs.append(a)
     return True, '', L, aggs
 
@@ -361,11 +361,11 @@ def parameter_origin(ctx, body, loops, L, op, per_method_P):
     returns (ok, how)"""
     r, fs, calls = root_of(body, op, REF_TRANSPARENT)
     if r is None: return False, 'origin of the parameter not traceable'
-    a = agg_def(body, r, 'v1::Parameter')
+    a = construction_of(ctx, body, r, 'v1::Parameter')
     if a is not None:
         # built from the item in this very iteration
-        if L is not None and a[0] in L.blocks and L.over_constraints: return True, 'built in the same iteration (%s)' % body.site(a[0])
-        return False, 'parameter built at %s is used for a constraint of another loop / outside a constraint loop' % body.site(a[0])
+        if L is not None and a.bb in L.blocks and L.over_constraints: return True, 'built in the same iteration (%s)' % a.site()
+        return False, 'parameter built at %s is used for a constraint of another loop / outside a constraint loop' % a.site()
     if L is not None and r == L.item:
         # lock-step: every sequence walked is self.constraints or a per-constraint parameter vector, all in order
         nvec = 0
@@ -442,10 +442,16 @@ def _reads(body, st, depth=4):
 from ..dataflow import Slice
 
 
+# calls whose result / effect is a number about a collection, not its elements: no element of the collection flows on
+SCALAR_SUMMARY = re.compile(r'::(len|capacity|is_empty)$|Iterator>::count(::<.*>)?$|::with_capacity$|::reserve(_exact)?$')
+
+
 def fs_backslice(ctx, body, starts, cut=()):
     """dataflow.Slicer.backslice, with two refinements:
        * a field node (l, f) whose struct l is the result of a crate function ending in a struct literal continues
          in that literal's operand for f only (the stock summary merges all fields of the callee);
+       * element flow only: the arguments of `len` / `capacity` / `is_empty` / `count` / `with_capacity` / `reserve`
+         are not followed (`Vec::with_capacity(self.items.len())` does not carry the items);
        * `cut`: field nodes (l, f) whose whole-struct definition must not be followed (it is overwritten on every
          path before the value is used, see final_field_slice)."""
     S = ctx.S; g = S.graph(body); E = g.edges; FN = g.field_nodes
@@ -477,6 +483,7 @@ def fs_backslice(ctx, body, starts, cut=()):
         for e in E.get(n, ()):
             k = e[0]
             if k == 'L':
+                if isinstance(e[3], str) and e[3].startswith(('call:', 'callarg:')) and SCALAR_SUMMARY.search(T.strip_generics_tail(e[3].split(':', 1)[1])): continue
                 src = e[1]; sl = src[0] if isinstance(src, tuple) else src
                 for af in e[2]: s.fields.add(af)
                 if 1 <= sl <= body.argc:
@@ -589,6 +596,57 @@ def final_field_slice(ctx, body, X, f):
     return fs_backslice(ctx, body, [(X, f)])
 
 
+class Construction:
+    """a struct value of some type being built in local X: a literal `T { .. }` (also `T { a, ..base }`), or a base value
+    (`T::default()`, a constructor call) completed by field assignments / setters.  Field-wise access for the rules:
+    `operand(f)` = the operand that initialises / is assigned to field f when there is exactly one, `slice(f)` = the
+    backward slice of the value f finally holds (final_field_slice: strong updates kill the base value)."""
+    def __init__(self, ctx, body, X, bb, lit):
+        self.ctx = ctx; self.body = body; self.X = X; self.bb = bb; self.lit = lit
+
+    def assignments(self, f):
+        return [(bi, st) for bi, st in self.body.stmts() if st['dst']['l'] == self.X and len(st['dst']['p']) == 1
+                and isinstance(st['dst']['p'][0], dict) and st['dst']['p'][0].get('f') == f]
+
+    def operand(self, f):
+        asg = self.assignments(f)
+        if len(asg) == 1 and asg[0][1]['rv']['k'] == 'use': return asg[0][1]['rv']['ops'][0]
+        if asg: return None
+        return agg_field_operand(self.lit, f) if self.lit is not None else None
+
+    def slice(self, f):
+        return final_field_slice(self.ctx, self.body, self.X, f)
+
+    def site(self): return self.body.site(self.bb)
+
+
+def construction_of(ctx, body, l, adt_suffix):
+    if l is None or 1 <= l <= body.argc: return None
+    ty = body.locals[l]
+    if not (ty == adt_suffix or ty.endswith('::' + adt_suffix)): return None
+    d = _whole_defs(body, l)
+    if len(d) != 1: return None
+    k, bi, x = d[0]
+    if k == 'stmt':
+        rv = x['rv']
+        if rv['k'] == 'agg' and (rv['adt'] == adt_suffix or rv['adt'].endswith('::' + adt_suffix)): return Construction(ctx, body, l, bi, x)
+        return None
+    # a base value: only if it is completed afterwards (a `..Default::default()` base is just read)
+    touched = any(st['dst']['l'] == l and st['dst']['p'] for b2, st in body.stmts()) or \
+        any(st['rv']['k'] == 'ref' and st['rv'].get('mut') and st['rv']['pl']['l'] == l for b2, st in body.stmts())
+    return Construction(ctx, body, l, bi, None) if touched else None
+
+
+def constructions(ctx, body, adt_suffix):
+    out = [construction_of(ctx, body, l, adt_suffix) for l in range(len(body.locals))]
+    return [c for c in out if c is not None and c.bb in body.live]
+
+
+def construction_carry(ctx, rule, sv, f, need_fields=(), need_calls=(), need_consts=(), not_fields=(), need_params=()):
+    sl = sv.slice(f)
+    return carry_slice(ctx, rule, sv.body, sl, 'field `%s`' % f, need_fields, need_calls, need_consts, not_fields, sv.site(), need_params)
+
+
 def result_structs(body, adt_suffix):
     """[(exit block, struct local)] for every Ok-exit: the local holding the struct that is returned"""
     out = []
@@ -619,9 +677,9 @@ MAX_IDIOMS = [
 ]
 
 
-def fresh_id(ctx, rule, body, op, what, site, fn=None):
+def fresh_id(ctx, rule, body, op, what, site, fn=None, s=None):
     """new ids derive from the largest defined decision-variable id plus one"""
-    s = slice_op(ctx, body, op)
+    if s is None: s = slice_op(ctx, body, op)
     probs = []
     if not s.has_field('v1::DecisionVariable', 'id'): probs.append('does not depend on the defined decision-variable ids')
     if not any(s.has_call(r) for r in MAX_IDIOMS): probs.append('does not take the maximum of the defined ids')
@@ -735,8 +793,8 @@ def check_method(ctx, name, uniform):
     cloops = [L for L in loops if L.over_constraints]
     ctx.check(bool(cloops), 'C09.loop/%s' % name, 'T-LOOPMUST', fn, 'no loop walks self.constraints itself (found %d loops)' % len(loops), body.site(),
               loops=[L.site(body) for L in cloops])
-    paggs = find_aggregates(body, 'v1::Parameter')
-    ctx.check(bool(paggs), 'C09.parameters/%s/constructed' % name, 'T-CARRY', fn, 'no weight parameter (v1::Parameter literal) is built', body.site())
+    paggs = constructions(ctx, body, 'v1::Parameter')
+    ctx.check(bool(paggs), 'C09.parameters/%s/constructed' % name, 'T-CARRY', fn, 'no weight parameter (v1::Parameter value) is built', body.site())
 
     def carry(rule, X, f, **kw):
         sl = final_field_slice(ctx, body, X, f)
@@ -774,7 +832,7 @@ def check_method(ctx, name, uniform):
         # parameters of the result
         sp = carry('C09.carry/%s/parameters' % name, X, 'parameters')
         if sp is not None and paggs:
-            ctx.check(any(st['dst']['l'] in sp.locals for _, st in paggs), 'C09.parameters/%s/returned' % name, 'T-CARRY', fn,
+            ctx.check(any(sv.X in sp.locals for sv in paggs), 'C09.parameters/%s/returned' % name, 'T-CARRY', fn,
                       'the weight parameter built here does not reach the result\'s `parameters`', body.site())
         if not uniform:
             # one weight per constraint: `parameters` is a vector filled once per iteration of a constraint loop
@@ -783,17 +841,18 @@ def check_method(ctx, name, uniform):
             ctx.check(ok, 'C09.parameters/%s/per-constraint' % name, 'T-LOOPMUST', fn, '`parameters` does not hold exactly one weight per constraint: ' + why,
                       PL.site(body) if PL else body.site())
 
-    for bi, st in paggs:
-        fresh_id(ctx, 'C09.fresh/%s' % name, body, agg_field_operand(st, 'id'), 'weight parameter id', body.site(), fn)
+    for sv in paggs:
+        bi = sv.bb
+        sid = sv.slice('id')
+        fresh_id(ctx, 'C09.fresh/%s' % name, body, None, 'weight parameter id', body.site(), fn, s=sid)
         L = innermost(loops, bi)
         if not uniform:
             ctx.check(L is not None and L.over_constraints, 'C09.parameters/%s/in-loop' % name, 'T-LOOPMUST', fn, 'parameter is not created inside a loop over self.constraints', body.site(bi))
             if L is None: continue
-            ss = carry_field(ctx, 'C09.tags/%s/subscripts' % name, body, st, 'subscripts', need_fields=[('v1::Constraint', 'id')], site=body.site(bi))
+            ss = construction_carry(ctx, 'C09.tags/%s/subscripts' % name, sv, 'subscripts', need_fields=[('v1::Constraint', 'id')])
             if ss is not None:
                 ctx.check(L.item in ss.locals, 'C09.tags/%s/subscripts-of-item' % name, 'T-CARRY', fn, 'subscripts do not derive from the loop\'s current constraint', body.site(bi))
             # id differs per constraint: depends on a value that changes with every iteration
-            sid = slice_op(ctx, body, agg_field_operand(st, 'id'))
             how = loop_counter_in(body, L, sid)
             ctx.check(how is not None, 'C09.fresh/%s/per-constraint-offset' % name, 'T-CARRY', fn, 'parameter id does not depend on the constraint index', body.site(bi), index=how)
         else:
@@ -807,12 +866,12 @@ def check_method(ctx, name, uniform):
         mine = [c for c in rpush if c.bb in L.blocks]
         loop_must(ctx, 'C09.loop/%s/push-removed' % name, body, L.lo, lambda c: c in mine, 'removed_constraints.push')
         for c in mine:
-            a = agg_def(body, root_of(body, c.args[1])[0], 'v1::RemovedConstraint')
-            ctx.check(a is not None and a[0] in L.blocks, 'C09.wrap/%s/built' % name, 'T-CARRY', fn, 'the value pushed is not a RemovedConstraint built in this iteration', body.site(c.bb))
+            a = construction_of(ctx, body, root_of(body, c.args[1])[0], 'v1::RemovedConstraint')
+            ctx.check(a is not None and a.bb in L.blocks, 'C09.wrap/%s/built' % name, 'T-CARRY', fn, 'the value pushed is not a RemovedConstraint built in this iteration', body.site(c.bb))
             if a is None: continue
-            bi, st = a
+            bi = a.bb
             # constraint: Some(item) — the item itself, moved, through no call
-            op = agg_field_operand(st, 'constraint')
+            op = a.operand('constraint')
             some = agg_def(body, root_of(body, op)[0], 'Option::Some') if op is not None else None
             inner = some[1]['rv']['ops'][0] if some else None
             r, fs, calls = root_of(body, inner) if inner is not None else (None, [], [])
@@ -825,11 +884,14 @@ def check_method(ctx, name, uniform):
                     writes.append(body.site(b2))
             ctx.check(not writes, 'C09.wrap/%s/no-write' % name, 'T-CARRY', fn, 'the constraint is modified inside the loop at %s' % writes, body.site(bi))
             if not uniform:
-                st_ = carry_field(ctx, 'C09.tags/%s/parameter_id' % name, body, st, 'removed_reason_parameters',
-                                  need_fields=[('v1::Parameter', 'id')], need_consts=[r'"parameter_id"'], site=body.site(bi))
+                st_ = construction_carry(ctx, 'C09.tags/%s/parameter_id' % name, a, 'removed_reason_parameters',
+                                         need_fields=[('v1::Parameter', 'id')], need_consts=[r'"parameter_id"'])
                 # the recorded id is the id of this constraint's weight
                 if st_ is not None:
-                    cands = [l for l in sorted(st_.locals) if PARAM_TY.match(body.locals[l]) and any(b2 in L.blocks for _, b2, _ in body.defs_of(l))]
+                    # the Parameter values whose `.id` is read for the tag (not every Parameter-typed local of the slice: with
+                    # `id: base + parameters.len()` the slice runs through the whole vector and the `..Default::default()` base)
+                    cands = sorted({n[0] for n in st_.nodes if isinstance(n, tuple) and len(n) == 2 and n[1] == 'id' and isinstance(n[0], int)
+                                    and PARAM_TY.match(body.locals[n[0]]) and any(b2 in L.blocks for _, b2, _ in body.defs_of(n[0]))})
                     verdicts = [parameter_origin(ctx, body, loops, L, {'k': 'copy', 'pl': {'l': l, 'p': []}}, None) for l in cands]
                     ok = bool(verdicts) and all(v[0] for v in verdicts)
                     ctx.check(ok, 'C09.pair/%s/tag' % name, 'T-CARRY', fn, '"parameter_id" does not name the weight of this constraint: %s' %
